@@ -183,7 +183,7 @@ func findBracket(p *Program, fn *ssa.Function, acq, rel *ssa.Function) (*bracket
 
 func lockRules() []*Rule {
 	return []*Rule{
-		{ID: "LOCK-1", Props: []string{"C06", "C07", "C08", "C17"}, Min: 6,
+		{ID: "LOCK-1", Props: []string{"C06", "C07", "C08", "C17", "C19"}, Min: 6,
 			Doc: "every exported method of *sqlittle.DB that reaches a page read brackets it: RLock error returned, defer RUnlock on the same handle dominates every page-reaching call, no early unlock, no nested lock",
 			Run: runLock1},
 		{ID: "LOCK-2", Props: []string{"C06", "C19"}, Min: 8,
@@ -201,6 +201,108 @@ func lockRules() []*Rule {
 		{ID: "LOCK-6", Props: []string{"C06"}, Min: 3,
 			Doc: "descriptor hygiene: POSIX drops all of a process's record locks on a file when any descriptor of it is closed; no open-and-close/close of a database-file descriptor outside a process-wide registry",
 			Run: runLock6},
+		{ID: "LOCK-8", Props: []string{"C06", "C19"}, Min: 1,
+			Doc: "an error from Database.RLock means 'not locked' (that is how every caller treats it): each of its paths returns the pager's own verdict, nil, or releases the pager lock before returning anything else",
+			Run: runLock8},
+		{ID: "LOCK-7", Props: []string{"C06", "C07", "C08"}, Min: 3,
+			Doc: "a handle never drops its own lock while it holds it: nothing the pager runs between taking and releasing the SHARED lock (RLock after the lock is taken, page, CheckReservedLock) closes or re-opens a descriptor of the database file",
+			Run: runLock7},
+	}
+}
+
+func runLock8(c *Ctx) {
+	p := c.P
+	fn := c.MustFunc("db", "(*Database).RLock")
+	if fn == nil {
+		return
+	}
+	t := &Termer{P: p}
+	paths, ok := EnumLits(fn.Blocks[0], 0, TabOpts{Termer: t, EventOf: callEvents(p), Limit: 20000})
+	if !ok {
+		c.Undecided("Database.RLock paths", fn.Pos(), "too many paths")
+		return
+	}
+	for _, lp := range paths {
+		if lp.Exit == nil || len(lp.Exit.Results) != 1 {
+			continue
+		}
+		key := "Database.RLock:" + pathSig(lp, 99)
+		locked, released := false, false
+		for _, e := range lp.Events {
+			if e.Kind != "call" {
+				continue
+			}
+			switch e.Name {
+			case "db.pager.RLock":
+				locked, released = true, false
+			case "db.pager.RUnlock":
+				released = true
+			}
+		}
+		ret := reOrd.ReplaceAllString(t.Term(lp.Exit.Results[0], lp.PS), "")
+		switch {
+		case !locked:
+			c.Check(ret != "const:nil", key, lp.Exit.Pos(), "path [%s] takes no pager lock and returns %s", pathDesc(lp), ret)
+		case ret == "call:db.pager.RLock" || ret == "const:nil" || released:
+			c.Pass(key, lp.Exit.Pos(), "path [%s] returns %s (released=%v)", pathDesc(lp), ret, released)
+		default:
+			c.Fail(key, lp.Exit.Pos(), "path [%s] holds the pager lock and returns %s: when that is an error every caller returns without RUnlock, and the SHARED lock stays until Close", pathDesc(lp), ret)
+		}
+	}
+}
+
+func fdCloser(fn *ssa.Function) string {
+	switch {
+	case isLibFunc(fn, "os", "(*File).Close"):
+		return "(*os.File).Close"
+	case isLibFunc(fn, "golang.org/x/exp/mmap", "Open"):
+		return "mmap.Open"
+	case isLibFunc(fn, "syscall", "Close"), isLibFunc(fn, "golang.org/x/sys/unix", "Close"):
+		return "close(2)"
+	}
+	return ""
+}
+
+func runLock7(c *Ctx) {
+	p := c.P
+	for _, m := range []string{"RLock", "page", "CheckReservedLock"} {
+		impls := p.pagerImpls(m)
+		if len(impls) == 0 {
+			c.Undecided("anchor db.pager."+m, token.NoPos, "no implementation of db.pager.%s found", m)
+			continue
+		}
+		for _, impl := range impls {
+			// module functions run by this method (library code cannot know the database file)
+			seen := map[*ssa.Function]bool{}
+			work := []*ssa.Function{impl}
+			var bad []string
+			for len(work) > 0 {
+				fn := work[len(work)-1]
+				work = work[:len(work)-1]
+				if seen[fn] || fn.Blocks == nil {
+					continue
+				}
+				seen[fn] = true
+				for _, cs := range callsIn(fn) {
+					for _, callee := range p.Callees(cs) {
+						if name := fdCloser(callee); name != "" {
+							bad = append(bad, fmt.Sprintf("%s calls %s (%s)", p.FnKey(fn), name, p.Pos(cs.Pos())))
+						} else if p.InModule(callee) {
+							work = append(work, callee)
+						}
+					}
+				}
+				for _, an := range fn.AnonFuncs {
+					work = append(work, an)
+				}
+			}
+			sort.Strings(bad)
+			msg := fmt.Sprintf("%d module function(s) run while the lock is held; none opens or closes a file descriptor", len(seen))
+			if len(bad) > 0 {
+				msg = strings.Join(bad, "; ") + ": POSIX drops every fcntl lock of the process on a file when any descriptor of it is closed, so the handle's own SHARED lock is gone while it still believes it holds it"
+			}
+			c.Check(len(bad) == 0, p.FnKey(impl), impl.Pos(), "%s", msg)
+		}
 	}
 }
 
@@ -455,6 +557,62 @@ func unixConst(p *Program, name string) (int64, bool) {
 }
 
 // flockArg resolves the *unix.Flock_t argument of a lock call to its allocation.
+// lockRequest is a request made through (*filePager).lock by the call site `site` of some function, directly or
+// through a freshly extracted helper that forwards one of its parameters (`func (f *filePager) unlock(fl) { fl.Type =
+// F_UNLCK; f.lock(fl) }`). arg is the Flock_t as seen at site; typ/hasTyp the constant the helper stores into its Type
+// field before the request (when it does).
+type lockRequest struct {
+	site   ssa.CallInstruction
+	arg    ssa.Value
+	typ    int64
+	hasTyp bool
+}
+
+func lockRequestsIn(p *Program, fn, lk *ssa.Function) []lockRequest {
+	var out []lockRequest
+	for _, cs := range callsIn(fn) {
+		callee := cs.Common().StaticCallee()
+		if callee == nil {
+			continue
+		}
+		if callee == lk {
+			out = append(out, lockRequest{site: cs, arg: cs.Common().Args[1]})
+			continue
+		}
+		if inlinable == nil || !inlinable(callee) || len(callee.Params) != len(cs.Common().Args) {
+			continue
+		}
+		for _, ics := range callsIn(callee) {
+			if ics.Common().StaticCallee() != lk {
+				continue
+			}
+			prm, ok := resolveCell(ics.Common().Args[1]).(*ssa.Parameter)
+			if !ok {
+				continue
+			}
+			for k, hp := range callee.Params {
+				if hp != prm {
+					continue
+				}
+				r := lockRequest{site: cs, arg: cs.Common().Args[k]}
+				for _, in2 := range instrs(callee) {
+					s2, ok := in2.(*ssa.Store)
+					if !ok || fieldName(s2.Addr) != "Type" || !instrDominates(s2, ics) {
+						continue
+					}
+					if resolveCell(s2.Addr.(*ssa.FieldAddr).X) == ssa.Value(prm) {
+						if v, ok := constInt(s2.Val); ok {
+							r.typ, r.hasTyp = v, true
+						}
+					}
+				}
+				out = append(out, r)
+			}
+		}
+	}
+	return out
+}
+
 func flockAlloc(v ssa.Value) *ssa.Alloc {
 	v = resolveCell(v)
 	a, _ := v.(*ssa.Alloc)
@@ -607,6 +765,34 @@ func runPager(c *Ctx) {
 			if !ok {
 				continue
 			}
+			// `defer f.unlock(pending)`: a helper that sets F_UNLCK on its parameter and forwards it to lock
+			if h := d.Common().StaticCallee(); h != nil && h != lk && inlinable != nil && inlinable(h) && len(h.Params) == len(d.Common().Args) {
+				for _, ics := range callsIn(h) {
+					if ics.Common().StaticCallee() != lk {
+						continue
+					}
+					prm, ok := resolveCell(ics.Common().Args[1]).(*ssa.Parameter)
+					if !ok {
+						continue
+					}
+					for k, hp := range h.Params {
+						if hp != prm || flockAlloc(d.Common().Args[k]) != allocs[0] {
+							continue
+						}
+						for _, in2 := range instrs(h) {
+							s2, ok := in2.(*ssa.Store)
+							if !ok || fieldName(s2.Addr) != "Type" || !instrDominates(s2, ics) {
+								continue
+							}
+							if resolveCell(s2.Addr.(*ssa.FieldAddr).X) == ssa.Value(prm) {
+								if v, ok := constInt(s2.Val); ok && v == fUNLCK {
+									def = d
+								}
+							}
+						}
+					}
+				}
+			}
 			for _, callee := range p.Callees(d) {
 				for _, f := range withClosures(callee) {
 					if f != callee && f.Parent() != callee {
@@ -666,23 +852,22 @@ func runPager(c *Ctx) {
 	// RUnlock
 	{
 		var call ssa.CallInstruction
-		for _, cs := range callsIn(ru) {
-			if cs.Common().StaticCallee() == lk {
-				if call != nil {
-					c.Undecided("RUnlock: unlock call", ru.Pos(), "more than one lock call in RUnlock")
-				}
-				call = cs
+		var req lockRequest
+		for _, r := range lockRequestsIn(p, ru, lk) {
+			if call != nil {
+				c.Undecided("RUnlock: unlock call", ru.Pos(), "more than one lock call in RUnlock")
 			}
+			call, req = r.site, r
 		}
 		if call == nil {
 			c.Fail("RUnlock: unlock call", ru.Pos(), "RUnlock issues no fcntl: the shared lock is never released")
 		} else {
-			arg := call.Common().Args[1]
+			arg := req.arg
 			c.Check(strings.HasSuffix(accessPath(arg), ".readLock"), "RUnlock: unlocks stored range", call.Pos(), "the Flock_t unlocked is the one stored by RLock (%s)", accessPath(arg))
-			okType := false
+			okType := req.hasTyp && req.typ == fUNLCK
 			for _, in := range instrs(ru) {
 				s, ok := in.(*ssa.Store)
-				if !ok || fieldName(s.Addr) != "Type" {
+				if !ok || fieldName(s.Addr) != "Type" || req.hasTyp {
 					continue
 				}
 				fa := s.Addr.(*ssa.FieldAddr)
